@@ -218,6 +218,14 @@ def _class_tail(L, spec, c, uid, ps, req):
         elif sav == 'raise':
             L.append('        if node.is_mapping() and node.has_attribute("poison"):')
             L.append('            raise yatiml.SeasoningError("poisoned")')
+        elif isinstance(sav, dict) and 'struct' in sav:
+            # the structural helpers, used as documented: an index written as a mapping
+            # of mappings / a list written with a key attribute
+            L.append('        if node.is_mapping() and node.has_attribute({!r}):'.format(sav['attr']))
+            if sav['struct'] == 'index':
+                L.append('            node.index_attribute_to_map({!r}, "id")'.format(sav['attr']))
+            else:
+                L.append('            node.seq_attribute_to_map({!r}, "id")'.format(sav['attr']))
         elif isinstance(sav, dict) and 'fill' in sav:
             # make omitted attributes explicit (the classic use of set_attribute)
             L.append('        if node.is_mapping():')
